@@ -7,7 +7,7 @@
 // over k lines adds to the batch output over k-1 lines.  Grid: every sequence of up to 4 lines over a 7-line pool (one
 // non-admitted) x 7 aggregate statements (HAVING that a group can stop satisfying, DISTINCT, PERCENTILE) and 6 plain / DISTINCT statements, every prefix k.
 // Also: TEXT aggregates whose argument is NULL on the first lines of a group (STRING_AGG, MIN / MAX, ARRAY_AGG, COUNT(DISTINCT))
-// over a 5-line pool; a table with a DEFAULT column (unmatched lines are rows); INNER / OUTER JOIN statements (8 aggregate, 4 plain; a key with two partners, WHERE on the joined side) over every sequence of up to 3 of 5 lines (with, without partner, NULL key); a split-pattern table in which blank and whitespace lines are rows.
+// over a 5-line pool; REAL values that differ in the fifth decimal (4 statements, sequences of up to 3 of 6 lines); a table with a DEFAULT column (unmatched lines are rows); INNER / OUTER JOIN statements (8 aggregate, 4 plain; a key with two partners, WHERE on the joined side) over every sequence of up to 3 of 5 lines (with, without partner, NULL key); a split-pattern table in which blank and whitespace lines are rows.
 include!("verif_grid_common.rs");
 include!("verif_grid_qcommon.rs");
 
@@ -83,6 +83,14 @@ fn verif_grid() {
         if base.is_empty() { continue; }
         for (si, st) in agg3.iter().enumerate() { let b1 = base.clone(); g.case(&format!("split-aggregate-b{}-s{}", bi, si), move || check_in(def3, st, true, &b1)); }
         for (si, st) in plain3.iter().enumerate() { let b1 = base.clone(); g.case(&format!("split-plain-b{}-s{}", bi, si), move || check_in(def3, st, false, &b1)); }
+    }
+    // REAL and TIMESTAMP values that differ far below the precision of the text rendering: every line that is folded in shows the table of the state after it
+    let def6 = "CREATE TABLE t(line = '^k=(\\\\w+) r=(\\\\S+)$', line[1] => k TEXT, line[2] => r REAL);";
+    let pool6 = ["k=a r=1.0", "k=a r=1.0001", "k=a r=1.00011", "k=a r=0.99999", "k=b r=1.0", "k=a r=1.0"];
+    let agg6 = ["SELECT AVG(r) AS a, MAX(r) AS hi FROM t", "SELECT k, SUM(r) AS s, MIN(r) AS lo FROM t GROUP BY k", "SELECT MAX(r) AS hi FROM t", "SELECT COUNT(*) AS n FROM t"];
+    for (bi, base) in sequences(&pool6, 3).into_iter().enumerate() {
+        if base.is_empty() { continue; }
+        for (si, st) in agg6.iter().enumerate() { let b1 = base.clone(); g.case(&format!("small-changes-b{}-s{}", bi, si), move || check_in(def6, st, true, &b1)); }
     }
     // a table in which a line that no pattern matches is still a row (a column with a DEFAULT)
     let def5 = "CREATE TABLE t(a = 'a=(\\\\d+)', b = 'b=(\\\\w+)', a[1] => x INT, b[1] => y TEXT DEFAULT 'unknown');";
